@@ -2,7 +2,7 @@
    can be validated against the compiled C functions on concrete inputs. *)
 From Coq Require Import ZArith List Bool String.
 Require Import Spec.Params Spec.Bytes Model.Base Gen.fe_mul_inner Gen.fe_sqr_inner.
-Require Import Gen.scalar_is_zero Gen.scalar_cmov Gen.fe_impl_cmov Gen.fe_storage_cmov Gen.int_cmov Gen.scalar_check_overflow Gen.scalar_is_high Gen.scalar_cond_negate Gen.scalar_negate Gen.fe_impl_normalize Gen.fe_impl_normalize_weak Gen.fe_impl_normalizes_to_zero Gen.fe_impl_negate_unchecked Gen.fe_impl_add Gen.fe_impl_half Gen.fe_impl_is_odd Gen.scalar_mul_512 Gen.scalar_sqr_512 Gen.scalar_reduce_512 Gen.scalar8x32_mul_512 Gen.scalar8x32_sqr_512 Gen.scalar8x32_check_overflow Gen.scalar8x32_reduce_512 Gen.scalar8x32_mul Gen.scalar8x32_sqr Gen.scalar_mul_512b Gen.scalar_sqr_512b Gen.scalar_mul Gen.scalar_sqr.
+Require Import Gen.scalar_is_zero Gen.scalar_cmov Gen.fe_impl_cmov Gen.fe_storage_cmov Gen.int_cmov Gen.scalar_check_overflow Gen.scalar_is_high Gen.scalar_cond_negate Gen.scalar_negate Gen.fe_impl_normalize Gen.fe_impl_normalize_weak Gen.fe_impl_normalizes_to_zero Gen.fe_impl_negate_unchecked Gen.fe_impl_add Gen.fe_impl_half Gen.fe_impl_is_odd Gen.scalar_mul_512 Gen.scalar_sqr_512 Gen.scalar_reduce_512 Gen.scalar8x32_mul_512 Gen.scalar8x32_sqr_512 Gen.scalar8x32_check_overflow Gen.scalar8x32_reduce_512 Gen.scalar8x32_mul Gen.scalar8x32_sqr Gen.scalar_mul_512b Gen.scalar_sqr_512b Gen.scalar_mul Gen.scalar_sqr Gen.scalar_add Gen.scalar_half.
 Import ListNotations.
 Local Open Scope Z_scope.
 Definition dispatch_gen (P : Params) (op : string) (a : list arg) : list arg :=
@@ -40,4 +40,6 @@ Definition dispatch_gen (P : Params) (op : string) (a : list arg) : list arg :=
   else if (op =? "raw_scalar_sqr_512b")%string then map AInt (scalar_sqr_512b (I 0%nat) (I 1%nat) (I 2%nat) (I 3%nat))
   else if (op =? "raw_scalar_mul")%string then map AInt (scalar_mul (I 0%nat) (I 1%nat) (I 2%nat) (I 3%nat) (I 4%nat) (I 5%nat) (I 6%nat) (I 7%nat))
   else if (op =? "raw_scalar_sqr")%string then map AInt (scalar_sqr (I 0%nat) (I 1%nat) (I 2%nat) (I 3%nat))
+  else if (op =? "raw_scalar_add")%string then map AInt (scalar_add (I 0%nat) (I 1%nat) (I 2%nat) (I 3%nat) (I 4%nat) (I 5%nat) (I 6%nat) (I 7%nat))
+  else if (op =? "raw_scalar_half")%string then map AInt (scalar_half (I 0%nat) (I 1%nat) (I 2%nat) (I 3%nat))
   else bad_case.
